@@ -1,5 +1,5 @@
 From Coq Require Import NArith Bool List.
-From CppUVerif Require Import C06_Model C06_Proofs C06_Sim C06_Examples C06_Wrap.
+From CppUVerif Require Import C06_Model C06_Proofs C06_Sim C06_Period C06_Examples C06_Wrap.
 Theorem C06_category_exact : C06_category_exact_stmt. Proof. exact category_exact. Qed.
 Print Assumptions C06_category_exact.
 Theorem C06_user_writes_silent : C06_user_writes_silent_stmt. Proof. exact user_writes_silent. Qed.
@@ -18,3 +18,7 @@ Theorem C06_run_meets_spec : C06_run_meets_spec_stmt. Proof. exact run_meets_spe
 Print Assumptions C06_run_meets_spec.
 Theorem C06_wrappers_transparent : C06_wrappers_transparent_stmt. Proof. exact wrappers_transparent. Qed.
 Print Assumptions C06_wrappers_transparent.
+Theorem C06_period_independent : C06_period_independent_stmt. Proof. exact period_independent. Qed.
+Print Assumptions C06_period_independent.
+Theorem C06_release_in_any_period : C06_release_in_any_period_stmt. Proof. exact release_in_any_period. Qed.
+Print Assumptions C06_release_in_any_period.
